@@ -1,8 +1,15 @@
 #!/bin/sh
-# try_seed.sh <seed-name> <property> [tier] : apply a seeded change to /repo, run the property's check, undo the change.
+# try_seed.sh <seed-name> <property> [tier] : run a property's check against a seeded change.
+# The change is applied to a scratch git worktree of /repo's HEAD (never to /repo itself), the check runs with
+# VERIF_REPO pointing there, and the worktree is removed afterwards.
 seed=$1; prop=$2; tier=${3:-quick}
-git -C /repo apply /verif/seeded/$seed/patch.diff || { echo "patch does not apply"; exit 9; }
-python3 /verif/checks/run.py $prop $tier > /tmp/try_$seed.$prop.log 2>&1; rc=$?
-git -C /repo checkout -- . ; git -C /repo clean -fdq
-grep -E "^(VIOLATION|KNOWN-FINDING|INCONCLUSIVE|C[0-9]+ )" /tmp/try_$seed.$prop.log | cut -c1-260 | head -${LINES_MAX:-12}
+wt=/tmp/wt/try_${seed}_${prop}_$$
+git -C /repo worktree add --detach $wt HEAD >/dev/null 2>&1 || { echo "cannot create worktree"; exit 9; }
+if ! git -C $wt apply /verif/seeded/$seed/patch.diff 2>/dev/null; then
+  git -C $wt apply --3way /verif/seeded/$seed/patch.diff >/dev/null 2>&1 || { echo "seed=$seed patch does not apply"; git -C /repo worktree remove --force $wt; exit 9; }
+fi
+VERIF_REPO=$wt python3 /verif/checks/run.py $prop $tier > /tmp/try_$seed.$prop.log 2>&1; rc=$?
+git -C /repo worktree remove --force $wt
+grep -E "^(VIOLATION|KNOWN-FINDING|INCONCLUSIVE|C[0-9]+ )" /tmp/try_$seed.$prop.log | cut -c1-220 | head -${LINES_MAX:-8}
+grep -A1 "^VIOLATION" /tmp/try_$seed.$prop.log | grep harness= | cut -c1-200 | head -4
 echo "seed=$seed prop=$prop tier=$tier exit=$rc"
